@@ -3,8 +3,9 @@ from checks import generic
 
 RULE = ("random scenarios: 2-4 pipes/socketpairs, 4-14 events (read/write/timer/signal, persist and one-shot, EV_ET reads, "
         "I/O timeouts, 1-3 priorities, write events waiting on a full pipe, epoll changelist on/off), prefix bringing them into added/active/ready/deleted states, fork either at top "
-        "level (ready data, event_active'd events, expired timers in flight) or inside the callback of an I/O, timer or "
-        "signal event (optionally deleting another event / itself around the fork), then a stimulus of writes, virtual-"
+        "level (ready data, event_active'd events, expired timers in flight), inside the callback of an I/O, timer or "
+        "signal event (optionally deleting another event / itself around the fork), or (epoll, threads) inside the callback "
+        "of an event a second thread just activated, i.e. with a wake-up notification in flight; then a stimulus of writes, virtual-"
         "time advances, self-kills, event_active, add/del; all backends x {self-pipe, signalfd} x {plain, pthreads-notifiable}; "
         "each scenario is run never-forked (control) and forked; non-trivial = the control ran at least one callback after "
         "the fork point and both comparisons were made; distinct = hash of the scenario")
@@ -18,11 +19,13 @@ REG = dict(category="exploration",
                 "scenario, and so do the parent's; the parent's epoll registration (/proc fdinfo) is unchanged by the child's "
                 "reinit/add/del/base free; the child's signal socketpair and notify eventfd are new kernel objects; a signal "
                 "sent by the child to the parent reaches the parent only and the child's self-signals never reach the parent; "
-                "a cross-thread event_active() wakes the loop in child and parent.",
+                "a cross-thread event_active() made while the loop thread sits in the backend wait writes a wake-up notification "
+                "to the process's own notify fd in control, parent and child (eventfd counter, no wall clock).",
            note="Metamorphic oracle (control run of the same script), no model of libevent. Child and parent run one after the "
                 "other on the virtual clock, so truly concurrent use of shared descriptors by both processes is not explored. "
                 "Signals pending at the fork are avoided (they are not inherited, the property is undefined for them); EV_ET "
-                "only on draining reads. A lost wake-up would hang the case: watchdog kill => inconclusive, not violation. "
+                "only on draining reads. Notification-in-flight forks only with epoll: on this tree the notify eventfd is never read (EV_ET only), so on "
+                "poll/select the loop spins after the first cross-thread wake-up (reported to the lead, outside C11). "
                 "ASan+UBSan live in all processes; case processes _exit().",
            technique="differential execution (forked vs never-forked) under sanitizers plus /proc fdinfo identity probes")
 
@@ -34,7 +37,7 @@ def run(tier, seed):
                                       "parent_cb_read", "parent_cb_write", "parent_cb_timer", "parent_cb_signal",
                                       "child_vs_control_comparisons", "parent_vs_control_comparisons", "epoll_fdinfo_checks",
                                       "sigpipe_identity_checks", "notify_identity_checks", "cross_kills_sent_by_child",
-                                      "child_wakeups", "parent_wakeups", "child_base_frees", "cfg_epoll_changelist", "cfg_full_pipe_with_waiting_writers",
+                                      "child_wakeups", "parent_wakeups", "fork_with_notification_in_flight", "child_base_frees", "cfg_epoll_changelist", "cfg_full_pipe_with_waiting_writers",
                                       "cfg_epoll_selfpipe", "cfg_epoll_signalfd", "cfg_poll_selfpipe", "cfg_poll_signalfd",
                                       "cfg_select_selfpipe", "cfg_select_signalfd"],
                             assumptions=["kill() to a process blocked in a syscall is delivered before that process next returns to user code",
